@@ -272,4 +272,6 @@ pub const HPKE_RFC: u32 = 9180;
          edits=[(NIST, '                    // Check the length\n                    enforce_equal_len(Self::OutputSize::to_usize(), encoded.len())?;\n', '                    // Check the length\n                    if !(encoded.len() == Self::size()) {\n                        return Err(HpkeError::IncorrectInputLength(Self::size(), encoded.len()));\n                    }\n')]),
     dict(name='b-encoder-range-index-loop', props=['C02', 'C04', 'C05', 'C06', 'C13'],
          edits=[(UTIL, '    assert_eq!(buf.len(), 8);\n    buf[0] = ((n & 0xff00000000000000) >> 56) as u8;\n    buf[1] = ((n & 0x00ff000000000000) >> 48) as u8;\n    buf[2] = ((n & 0x0000ff0000000000) >> 40) as u8;\n    buf[3] = ((n & 0x000000ff00000000) >> 32) as u8;\n    buf[4] = ((n & 0x00000000ff000000) >> 24) as u8;\n    buf[5] = ((n & 0x0000000000ff0000) >> 16) as u8;\n    buf[6] = ((n & 0x000000000000ff00) >>  8) as u8;\n    buf[7] =  (n & 0x00000000000000ff)        as u8;', '    assert_eq!(buf.len(), 8);\n    for i in 0..buf.len() {\n        buf[i] = (n >> (56 - 8 * i)) as u8;\n    }')]),
+    dict(name='b-open-assert-parts-add-up', props=['C05', 'C13', 'C14'],
+         edits=[(AEAD, '        let (ciphertext, tag_slice) = ciphertext.split_at(msg_len);\n', '        let (ciphertext, tag_slice) = ciphertext.split_at(msg_len);\n        assert_eq!(ciphertext.len() + tag_slice.len(), msg_len + tag_len);\n        debug_assert!(tag_slice.len() <= 64);\n')]),
 ]
